@@ -42,7 +42,7 @@ def parse_cfg(line: str) -> dict:
     for item in cfg.split(";"):
         if item.startswith("peer:"):
             f = item[5:].split(",")
-            out["peers"].append({"name": f[0], "realm": f[1], "persistent": f[2] == "1", "always": f[3] == "1",
+            out["peers"].append({"name": f[0], "realm": out["realm"] if f[1] == "-" else f[1], "persistent": f[2] == "1", "always": f[3] == "1",
                                  "wait": int(f[4]), "addr": f[5] == "1", "default": f[6] == "1",
                                  "cea": None if f[7] == "-" else int(f[7]), "cer": None if f[8] == "-" else int(f[8]),
                                  "dwa": None if f[9] == "-" else int(f[9]), "idle": None if f[10] == "-" else int(f[10])})
